@@ -218,8 +218,21 @@ pub fn accepted(rng: &mut Rng, o: &Opts) -> (B, Vec<u8>) {
   let v = B::sorted(top);
   let mut bytes = v.encode();
   if o.trailing && rng.chance(1, 5) {
-    let t: &[u8] = *rng.pick(&[b"junk".as_slice(), b"e", b"d", b"i1e", b"\n", b"0:"]);
-    bytes.extend_from_slice(t);
+    if rng.chance(1, 3) {
+      // the trailing bytes are themselves a complete torrent with an info dictionary of its own (two files concatenated):
+      // everything reported must still come from the first value
+      let other = B::dict(vec![
+        ("announce", B::s("http://second.example/announce")),
+        ("info", B::dict(vec![("length", B::Int(3)), ("name", B::s("second")), ("piece length", B::Int(16384)), ("pieces", B::Bytes(vec![9; 20]))])),
+      ]);
+      bytes.extend_from_slice(&other.encode());
+      if rng.chance(1, 2) {
+        bytes.extend_from_slice(b"d4:infod4:name1:xee");
+      }
+    } else {
+      let t: &[u8] = *rng.pick(&[b"junk".as_slice(), b"e", b"d", b"i1e", b"\n", b"0:", b"d4:infodee", b"de", b"4:info"]);
+      bytes.extend_from_slice(t);
+    }
   }
   (v, bytes)
 }
